@@ -59,32 +59,39 @@ def scan_forbidden():
 
 
 def proof_step(prop_id):
-    """Compile Properties/<id>.v on its own and parse Print Assumptions.
+    """Compile Properties/<id>.v and Properties/<id>_*.v on their own and parse Print Assumptions.
     Returns dict(obligations, discharged, theorems, assumptions, ok, output)."""
-    path = os.path.join(COQDIR, "Properties", prop_id + ".v")
-    if not os.path.exists(path):
+    import glob
+    paths = sorted(glob.glob(os.path.join(COQDIR, "Properties", prop_id + ".v")) +
+                   glob.glob(os.path.join(COQDIR, "Properties", prop_id + "_*.v")))
+    if not paths:
         return dict(ok=False, obligations=0, discharged=0, theorems=[], assumptions={},
-                    output="missing " + path)
-    src = open(path, encoding="utf8").read()
-    src_nc = re.sub(r"\(\*.*?\*\)", "", src, flags=re.S)
-    theorems = re.findall(r"^\s*(?:Theorem|Lemma|Corollary)\s+([A-Za-z0-9_']+)", src_nc, flags=re.M)
-    p = subprocess.run(["coqc", "-Q", COQDIR, "VK", path], capture_output=True, text=True,
-                       timeout=1800, cwd=COQDIR)
-    out = p.stdout + p.stderr
-    assumptions = {}
-    # Print Assumptions output: either "Closed under the global context" or "Axioms:\n name : type"
-    blocks = re.split(r"(?=Closed under the global context|Axioms:)", p.stdout)
-    printed = [b for b in blocks if b.startswith("Closed") or b.startswith("Axioms:")]
-    order = re.findall(r"Print\s+Assumptions\s+([A-Za-z0-9_']+)", src_nc)
-    for name, blk in zip(order, printed):
-        if blk.startswith("Closed"):
-            assumptions[name] = []
+                    output="missing Properties/%s.v" % prop_id, files=[])
+    theorems, assumptions, outputs, ok_all, discharged = [], {}, [], True, 0
+    for path in paths:
+        src = open(path, encoding="utf8").read()
+        src_nc = re.sub(r"\(\*.*?\*\)", "", src, flags=re.S)
+        ths = re.findall(r"^\s*(?:Theorem|Lemma|Corollary)\s+([A-Za-z0-9_']+)", src_nc, flags=re.M)
+        p = subprocess.run(["coqc", "-Q", COQDIR, "VK", path], capture_output=True, text=True,
+                           timeout=1800, cwd=COQDIR)
+        blocks = re.split(r"(?=Closed under the global context|Axioms:)", p.stdout)
+        printed = [b for b in blocks if b.startswith("Closed") or b.startswith("Axioms:")]
+        order = re.findall(r"Print\s+Assumptions\s+([A-Za-z0-9_']+)", src_nc)
+        for name, blk in zip(order, printed):
+            if blk.startswith("Closed"):
+                assumptions[name] = []
+            else:
+                assumptions[name] = re.findall(r"^\s*([A-Za-z0-9_.']+)\s*:", blk[len("Axioms:"):], flags=re.M)
+        theorems += ths
+        ok = p.returncode == 0
+        ok_all = ok_all and ok
+        if ok:
+            discharged += len(ths)
         else:
-            assumptions[name] = re.findall(r"^([A-Za-z0-9_.']+)\s*:", blk, flags=re.M)
-    ok = p.returncode == 0
-    return dict(ok=ok, obligations=len(theorems), discharged=len(theorems) if ok else 0,
-                theorems=theorems, assumptions=assumptions, output=out[-3000:],
-                printed=len(printed), expected_prints=len(order))
+            outputs.append(os.path.basename(path) + ": " + (p.stdout + p.stderr)[-2500:])
+    return dict(ok=ok_all, obligations=len(theorems), discharged=discharged, theorems=theorems,
+                assumptions=assumptions, output="\n".join(outputs),
+                files=[os.path.relpath(x, COQDIR) for x in paths])
 
 
 # ------------------------------------------------------------------ worker side
@@ -298,7 +305,7 @@ class Check:
             "coverage": {
                 "obligations": max(1, proof.get("obligations", 0)),
                 "discharged": proof.get("discharged", 0),
-                "checker_cmd": f"coqc -Q coq VK coq/Properties/{self.prop_id}.v  (after ./build.sh: full make of the development)",
+                "checker_cmd": "./build.sh (full make of coq/_CoqProject) && " + " && ".join("coqc -Q coq VK coq/" + f for f in proof.get("files", [f"Properties/{self.prop_id}.v"])),
                 "trusted_base": tb,
                 "theorems": proof.get("theorems", []),
                 "assumptions_per_theorem": proof.get("assumptions", {}),
